@@ -147,7 +147,7 @@ VH_MAIN_BEGIN
         if (!dnull && dmax > 0 && !len_viol) {
             if (c == (size_t)-1)
                 CHECK("C15", rc != EOK, "invalid sequence not reported");
-            else if (c < dmax && (TOW || c > 0)) {
+            else if (c < dmax) {
                 CHECK("C15", rc == EOK, "valid input that fits was rejected");
                 CHECK("C15", retval == c, "count differs from the standard function limited to the space available");
                 for (unsigned i = 0; i < DN; i++)
